@@ -247,6 +247,12 @@ func (e *Executor) getTaskFunc(
 		// - All output checks pass (outputCheckErr == nil): a failing check forces execution
 		if target.HasCacheHit && !isTainted && !target.SkipsCache() && e.enableCache && outputCheckErr == nil {
 			if e.loadOutputsMode == config.LoadOutputsMinimal {
+				// A result that does not describe the declared outputs (e.g. one recorded while the
+				// cache was disabled) can never be loaded: run the target like load_outputs=all does.
+				if validationErr := output.ValidateTargetResult(target, targetResult); validationErr != nil {
+					logger.Debugf("%s re-running because the cached result cannot be used: %v", target.Label, validationErr)
+					return e.executeAfterCacheMiss(ctx, target, binToolPaths, outputIdentifiers, update, isTainted)
+				}
 				// Important: Set the output hash so that descendants can compute their change hashes
 				target.OutputHash = targetResult.OutputHash
 				update(worker.Status(fmt.Sprintf("%s: cache hit. skipped loading %s because load_outputs=minimal.", target.Label, console.FCountOutputs(len(target.AllOutputs())))))
@@ -288,15 +294,28 @@ func (e *Executor) getTaskFunc(
 			logger.Debugf("running target %s due to output check error", target.Label)
 		}
 
-		if e.loadOutputsMode == config.LoadOutputsMinimal {
-			update(worker.Status(fmt.Sprintf("%s: loading dependency outputs (load_outputs=minimal).", target.Label)))
-			if loadDepsErr := e.LoadDependencyOutputs(ctx, target, update); loadDepsErr != nil {
-				return dag.CacheMiss, fmt.Errorf("failed to load dependency outputs for target %s: %w", target.Label, loadDepsErr)
-			}
-		}
-
-		return e.executeTarget(ctx, target, binToolPaths, outputIdentifiers, update, isTainted)
+		return e.executeAfterCacheMiss(ctx, target, binToolPaths, outputIdentifiers, update, isTainted)
 	}
+}
+
+// executeAfterCacheMiss runs a target that could not be served from the cache. With
+// load_outputs=minimal the outputs of its direct dependencies are materialised first.
+func (e *Executor) executeAfterCacheMiss(
+	ctx context.Context,
+	target *model.Target,
+	binToolPaths BinToolMap,
+	outputIdentifiers OutputIdentifierMap,
+	update worker.StatusFunc,
+	isTainted bool,
+) (dag.CacheResult, error) {
+	if e.loadOutputsMode == config.LoadOutputsMinimal {
+		update(worker.Status(fmt.Sprintf("%s: loading dependency outputs (load_outputs=minimal).", target.Label)))
+		if loadDepsErr := e.LoadDependencyOutputs(ctx, target, update); loadDepsErr != nil {
+			return dag.CacheMiss, fmt.Errorf("failed to load dependency outputs for target %s: %w", target.Label, loadDepsErr)
+		}
+	}
+
+	return e.executeTarget(ctx, target, binToolPaths, outputIdentifiers, update, isTainted)
 }
 
 func formatTargetResultForDebug(targetResult *gen.TargetResult) string {
